@@ -174,7 +174,9 @@ impl PatternFormatter {
   /// Applies left or right padding to the given content.
   fn apply_padding(&self, buf: &mut String, content: &str, padding: i32) {
     // `unsigned_abs`: `abs()` overflows (panics / wraps) for `i32::MIN`.
-    let width = padding.unsigned_abs() as usize;
+    // ... and `{:>width$}` panics ("Formatting argument out of range") for widths
+    // beyond u16::MAX, so absurd paddings are clamped to that limit.
+    let width = (padding.unsigned_abs() as usize).min(u16::MAX as usize);
     if content.len() >= width {
       buf.push_str(content);
       return;
